@@ -1,6 +1,6 @@
 (* C10 — drange enumerates exactly t0, t0+bump, ... up to t1 for every kind of bump. *)
 From Coq Require Import ZArith List Bool Lia Sorted.
-From PB Require Import model.M_cal model.M_dates model.M_drange proofs.P_drange proofs.P_drange_int.
+From PB Require Import model.M_cal model.M_dates model.M_drange proofs.P_drange proofs.P_drange_int proofs.P_dates_m proofs.P_dates_prog.
 Import ListNotations.
 Open Scope Z_scope.
 
@@ -81,6 +81,22 @@ Theorem C10_int_td_nd_same fuel t0 t1 n l l2 l3 :
   drange fuel t0 t1 (BTok [(n, UD)]) = Ok l3 -> l = l2 /\ l = l3.
 Proof. exact (drange_int_td_nd_same fuel t0 t1 n l l2 l3). Qed.
 Print Assumptions C10_int_td_nd_same.
+
+(* the progress hypothesis of the loop theorems holds for the real positive single-period bumps:
+   fixed-length and business-day units by at least one unit, month-based units by more than 27 days *)
+Theorem C10_fixed_bumps_progress u t k t' : 1 <= k -> bump1 t (k, u) = Some t' ->
+  match u with
+  | UD | UB => t + DAYUS <= t' | UW => t + 7 * DAYUS <= t' | UH => t + 3600000000 <= t'
+  | UN => t + 60000000 <= t' | US => t + 1000000 <= t' | _ => True
+  end.
+Proof. exact (fixed_bump_progress u t k t'). Qed.
+Print Assumptions C10_fixed_bumps_progress.
+Theorem C10_month_bumps_progress u t k t' y m d y' m' :
+  (u = UM \/ u = UQ \/ u = UY) -> 1 <= k -> ymd_of_ord (ord_of_us t) = (y, m, d) ->
+  month_target u y m k = (y', m') -> 1 <= y' <= 9999 ->
+  bump1 t (k, u) = Some t' -> t + 27 * DAYUS < t'.
+Proof. exact (month_bump_progress u t k t' y m d y' m'). Qed.
+Print Assumptions C10_month_bumps_progress.
 
 Example C10_example :
   let t0 := us_of_ord 737504 in let t1 := us_of_ord 737439 in   (* 2020-03-20 back to 2020-01-15 *)
